@@ -62,11 +62,15 @@ func getPaths(prop string) paths {
 	if root == "" {
 		root = "/verif"
 	}
+	out := os.Getenv("VERIF_OUT") // where evidence, replays and scratch go (default: the root)
+	if out == "" {
+		out = root
+	}
 	return paths{
 		verif:    root,
-		work:     filepath.Join(root, ".work", prop),
-		evidence: filepath.Join(root, "evidence", prop+".json"),
-		replays:  filepath.Join(root, "replays", prop),
+		work:     filepath.Join(out, ".work", prop),
+		evidence: filepath.Join(out, "evidence", prop+".json"),
+		replays:  filepath.Join(out, "replays", prop),
 		testdata: filepath.Join(root, "testdata"),
 		known:    filepath.Join(root, "known_findings.json"),
 	}
@@ -261,8 +265,16 @@ func runReplay(prop, path string) int {
 
 // ---------------------------------------------------------------------------- driver
 
+// RepoDir is the tree the library was built from (/repo unless VERIF_REPO points at a scratch worktree).
+func RepoDir() string {
+	if r := os.Getenv("VERIF_REPO"); r != "" {
+		return r
+	}
+	return "/repo"
+}
+
 func repoHead() string {
-	out, err := exec.Command("git", "-C", "/repo", "describe", "--always", "--dirty").Output()
+	out, err := exec.Command("git", "-C", RepoDir(), "describe", "--always", "--dirty").Output()
 	if err != nil {
 		return "unknown"
 	}
